@@ -107,6 +107,51 @@ func GenString(r *simrt.Rand, n int, alpha string) string {
 // documented header mapping leaves them unchanged).
 var metaKeys = []string{"Mk", "Mk-A", "Mk-B", "Trace-Id", "Xx"}
 
+// ExtraMetaKeys are the keys of the further metadata entries some operations carry (added, overwritten and
+// deleted again by message settings before the message is sent).
+var ExtraMetaKeys = []string{"Ex-A", "Ex-B", "Ex-C", "Ex-D", "Ex-E"}
+
+// genMetaSteps draws, from a stream of its own (so that the main stream of GenOp is not disturbed), a short
+// history of metadata settings: adds, an overwrite, deletions of entries that are not the last one, adds after a
+// deletion.
+func genMetaSteps(op *Op, seed uint64) {
+	r := simrt.NewRand(simrt.Mix(seed, 5000+uint64(op.Idx)))
+	if !r.Chance(0.3) {
+		return
+	}
+	val := func() string { return GenString(r, 1+r.Intn(10), alphaSafe[:62]) }
+	n := 1 + r.Intn(4)
+	perm := r.Perm(len(ExtraMetaKeys))
+	var have []string
+	for i := 0; i < n; i++ {
+		k := ExtraMetaKeys[perm[i]]
+		op.MetaSteps = append(op.MetaSteps, [3]string{"add", k, val()})
+		have = append(have, k)
+	}
+	if r.Chance(0.3) {
+		op.MetaSteps = append(op.MetaSteps, [3]string{"set", have[r.Intn(len(have))], val()})
+	}
+	if r.Chance(0.6) {
+		// delete an entry (mostly not the last one), then perhaps add another
+		i := r.Intn(len(have))
+		if len(have) > 1 && r.Chance(0.7) {
+			i = r.Intn(len(have) - 1)
+		}
+		op.MetaSteps = append(op.MetaSteps, [3]string{"del", have[i], ""})
+		have = append(have[:i], have[i+1:]...)
+		if r.Chance(0.6) && n < len(ExtraMetaKeys) {
+			k := ExtraMetaKeys[perm[n]]
+			op.MetaSteps = append(op.MetaSteps, [3]string{"add", k, val()})
+			have = append(have, k)
+		}
+	}
+	if len(have) > 1 && r.Chance(0.4) {
+		op.HDelMeta = have[r.Intn(len(have)-1)]
+	} else if op.MetaK != "" && len(have) > 0 && r.Chance(0.2) {
+		op.HDelMeta = op.MetaK
+	}
+}
+
 // GenOp draws one operation valid for proto.
 func GenOp(r *simrt.Rand, idx int, seed uint64, proto string) *Op {
 	op := &Op{Idx: idx, Tag: fmt.Sprintf("T%x.%d", seed&0xffffff, idx)}
@@ -183,6 +228,7 @@ func GenOp(r *simrt.Rand, idx int, seed uint64, proto string) *Op {
 	if r.Chance(0.3) {
 		op.HYield = r.Intn(6)
 	}
+	genMetaSteps(op, seed)
 	return op
 }
 
